@@ -25,7 +25,7 @@ def main():
     try:
         dst = os.path.join(tmp, "repo")
         shutil.copytree("/repo", dst, ignore=shutil.ignore_patterns(".git", "__pycache__", ".ruff_cache", ".benchmarks", "*.egg-info", "img"))
-        r = subprocess.run(["patch", "-p1", "-s", "-i", os.path.abspath(diff)], cwd=dst, capture_output=True, text=True)
+        r = subprocess.run(["patch", "-p1", "-s", "--no-backup-if-mismatch", "-i", os.path.abspath(diff)], cwd=dst, capture_output=True, text=True)
         if r.returncode != 0:
             print("PATCH FAILED", r.stdout[-300:], r.stderr[-300:])
             return 1
